@@ -146,7 +146,16 @@ func c11Build(x *mc.Exec, malformed bool) (*c11Tree, string) {
 	if ins > 0 {
 		where, size := (ins-1)/3, []int{0, 1, 100}[(ins-1)%3]
 		ub := &gen.Box{Type: "zzzz", Payload: &gen.Doc{B: pattern(size, 'u')}}
-		switch x.All("unknown-box-kind", 4) {
+		kind := x.All("unknown-box-kind", 6)
+		if kind >= 4 && where != 3 && where != 4 {
+			kind = 0 // the two kinds below are placed inside moov only (a failing top-level uuid box is reported by an error)
+		}
+		switch kind {
+		case 4: // a uuid box too short to hold its 16-byte usertype: its handler fails with the payload unread
+			ub = &gen.Box{Type: "uuid", Payload: &gen.Doc{B: pattern(8, 'y')}}
+		case 5: // Canon's preview usertype holding a free box where PRVW belongs: the preview handler fails
+			ub = &gen.Box{Type: "uuid", UUID: gen.UUIDCr3Preview, Payload: &gen.Doc{B: []byte{0, 0, 0, 0, 0, 0, 0, 1}},
+				Children: []*gen.Box{{Type: "free", Payload: &gen.Doc{B: []byte("padding of a free box that is no preview")}}}}
 		case 1: // a uuid box whose usertype is none of the three Canon ones
 			ub = &gen.Box{Type: "uuid", UUID: gen.UUIDOther, Payload: &gen.Doc{B: pattern(size, 'v')}}
 		case 2:
@@ -548,7 +557,7 @@ func init() {
 			}
 			return []mc.Space{
 				{Name: "well-formed-trees", H: c11Harness(false), Bound: b, Isolate: true,
-					Rule: "canonical CR3 box tree (ftyp, moov{uuid-meta{CNCV,CCTP{CCDT,CCDT},CTBO,free,CMT1-4,THMB},mvhd,trak{tkhd,mdia{mdhd,hdlr}}}, uuid-xpacket, uuid-preview{PRVW}, mdat); deviations: xpacket/preview size menus, skeleton variants (free / unknown top-level box, unknown children, 64-bit uuid sizes), an unknown box (zzzz, uuid with a foreign usertype in 32- and 64-bit form, skip) inserted at 7 places x 3 sizes, a trailing 8/16-byte box, any one box in 64-bit size form, ftyp with 0/1/8/9/12/40 compatible brands, a metadata child with content too short for its type (CNCV, CTBO, CMT3, CCTP, THMB; sizes honest), the CMT boxes in 5 other arrangements (one missing, reordered, duplicated, only CMT4); x both byte orders x 5 Exif / 3 XMP / 3 preview callback behaviours"},
+					Rule: "canonical CR3 box tree (ftyp, moov{uuid-meta{CNCV,CCTP{CCDT,CCDT},CTBO,free,CMT1-4,THMB},mvhd,trak{tkhd,mdia{mdhd,hdlr}}}, uuid-xpacket, uuid-preview{PRVW}, mdat); deviations: xpacket/preview size menus, skeleton variants (free / unknown top-level box, unknown children, 64-bit uuid sizes), an unknown box (zzzz, uuid with a foreign usertype in 32- and 64-bit form, skip; inside moov also a uuid too short for its usertype and a preview uuid without PRVW) inserted at 7 places x 3 sizes, a trailing 8/16-byte box, any one box in 64-bit size form, ftyp with 0/1/8/9/12/40 compatible brands, a metadata child with content too short for its type (CNCV, CTBO, CMT3, CCTP, THMB; sizes honest), the CMT boxes in 5 other arrangements (one missing, reordered, duplicated, only CMT4); x both byte orders x 5 Exif / 3 XMP / 3 preview callback behaviours"},
 				{Name: "overstated-children", H: c11Harness(true), Bound: b, Isolate: true,
 					Rule: "the same trees with any one box declaring a size off by {+1,+8,-1,-8,+64Ki,+2^31-1,+2^31,+2^32-1,+2^40}, optionally together with its parent (same amount or 64 more) or parent and grandparent (cooperating sites; the top-level box stays honest): no callback and no call may leave the stream beyond the end of the box being handled or of the enclosing top-level box; trivial = no overstatement"},
 			}
